@@ -1,6 +1,172 @@
 import OnetVerif.Model.C02
-/-! Property C02 — property theorems, negation witnesses, `_partial` variants and non-vacuity
-examples only (helper lemmas that need Mathlib go to OnetVerif/Proofs/). -/
+/-! Property C02 — handlers only see messages from the authenticated tree member they name. -/
 namespace C02
+
+theorem search_some {nodes : List Node} {id : Nat} {n : Node} (h : search nodes id = some n) :
+    n ∈ nodes ∧ n.id = id := by
+  unfold search at h
+  have hm := List.mem_of_getLast? h
+  have := List.mem_filter.mp hm
+  exact ⟨this.1, by simpa using this.2⟩
+
+theorem verify_some {nodes : List Node} {m : Msg} {n : Node} (h : verify nodes m = some n) :
+    n ∈ nodes ∧ n.id = m.sender ∧ ∀ p, m.peer = some p → n.server = p := by
+  unfold verify at h
+  split at h
+  · simp at h
+  · rename_i n' hs
+    have hs' := search_some hs
+    split at h
+    · simp at h; subst h
+      exact ⟨hs'.1, hs'.2, by intro p hp; simp_all⟩
+    · rename_i p hp
+      split at h
+      · simp at h; subst h
+        refine ⟨hs'.1, hs'.2, ?_⟩
+        intro p' hp'
+        rw [hp] at hp'; simp at hp'; subst hp'; assumption
+      · simp at h
+
+/-- **soundness of one dispatch**: whatever a handler or channel receives, every element names a
+node of the instance's tree, that node is the claimed sender, and its server is the peer the
+transport attached to the connection the message arrived on. -/
+theorem c02_batch_sound (nodes : List Node) (b : List Msg) (xs : List (Node × Msg))
+    (h : deliverBatch nodes b = some xs) :
+    xs.map Prod.snd = b ∧
+    ∀ x ∈ xs, x.1 ∈ nodes ∧ x.1.id = x.2.sender ∧ ∀ p, x.2.peer = some p → x.1.server = p := by
+  induction b generalizing xs with
+  | nil => simp [deliverBatch] at h; subst h; simp
+  | cons m b ih =>
+    simp only [deliverBatch] at h
+    split at h
+    · simp at h
+    · rename_i n hv
+      split at h
+      · simp at h
+      · rename_i r hr
+        simp at h; subst h
+        have := ih r hr
+        refine ⟨by simp [this.1], ?_⟩
+        intro x hx
+        simp at hx
+        rcases hx with hx | hx
+        · subst hx; exact verify_some hv
+        · exact this.2 x hx
+
+/-- **no partial or placeholder delivery**: if any element of a batch has a claimed sender that is
+not a node of the tree, or a node hosted by another server than the connection's peer, nothing of
+the batch is delivered. -/
+theorem c02_bad_sender_not_delivered (nodes : List Node) (b : List Msg) (m : Msg) (hm : m ∈ b)
+    (hbad : verify nodes m = none) : deliverBatch nodes b = none := by
+  induction b with
+  | nil => simp at hm
+  | cons m' b ih =>
+    simp only [deliverBatch]
+    simp at hm
+    rcases hm with hm | hm
+    · subst hm; simp [hbad]
+    · split
+      · rfl
+      · simp [ih hm]
+
+/-- the three ways a claimed sender is refused -/
+theorem c02_verify_none_iff (nodes : List Node) (m : Msg) :
+    verify nodes m = none ↔
+      search nodes m.sender = none ∨
+      ∃ n p, search nodes m.sender = some n ∧ m.peer = some p ∧ n.server ≠ p := by
+  unfold verify
+  split
+  · simp_all
+  · rename_i n hs
+    split
+    · rename_i hp; simp [hs, hp]
+    · rename_i p hp
+      split
+      · rename_i he; simp [hs, hp, he]
+      · rename_i he; simp [hs, hp]; exact he
+
+/-- a node id that does not occur in the tree is refused, whoever the peer is -/
+theorem c02_unknown_sender_refused (nodes : List Node) (m : Msg)
+    (h : ∀ n ∈ nodes, n.id ≠ m.sender) : verify nodes m = none := by
+  rw [c02_verify_none_iff]; left
+  unfold search
+  have : nodes.filter (fun n => n.id == m.sender) = [] := by
+    apply List.filter_eq_nil_iff.mpr
+    intro n hn; simpa using h n hn
+  simp [this]
+
+/-- a member claiming to be a node hosted by another server is refused -/
+theorem c02_impersonation_refused (nodes : List Node) (m : Msg) (p : Nat)
+    (hp : m.peer = some p) (h : ∀ n ∈ nodes, n.id = m.sender → n.server ≠ p) :
+    verify nodes m = none := by
+  rw [c02_verify_none_iff]
+  cases hs : search nodes m.sender with
+  | none => left; rfl
+  | some n =>
+    right
+    have := search_some hs
+    exact ⟨n, p, rfl, hp, h n this.1 this.2⟩
+
+/-- **completeness**: in a tree with pairwise distinct node ids, a message from a member that
+arrives over that member's connection is accepted. -/
+theorem c02_honest_accepted (nodes : List Node) (n : Node) (m : Msg)
+    (hn : n ∈ nodes) (hid : ∀ a ∈ nodes, ∀ b ∈ nodes, a.id = b.id → a = b)
+    (hs : m.sender = n.id) (hp : m.peer = some n.server) : verify nodes m = some n := by
+  have hsearch : search nodes m.sender = some n := by
+    unfold search
+    have hmem : n ∈ nodes.filter (fun x => x.id == m.sender) := by
+      apply List.mem_filter.mpr; exact ⟨hn, by simp [hs]⟩
+    cases hl : (nodes.filter (fun x => x.id == m.sender)).getLast? with
+    | none =>
+      have hnil := List.getLast?_eq_none_iff.mp hl
+      rw [hnil] at hmem; simp at hmem
+    | some x =>
+      have hx := List.mem_filter.mp (List.mem_of_getLast? hl)
+      have : x = n := hid x hx.1 n hn (by have := hx.2; simp at this; rw [this, hs])
+      rw [this]
+  simp [verify, hsearch, hp]
+
+/-- a missing sender token never reaches the instance -/
+theorem c02_missing_sender_refused (i : Inst) (q : Queues) (w : Wire) (h : w.sender = none) :
+    receive i q w = (q, none) := by
+  simp [receive, h]
+
+/-- **every delivery of every run is sound** — for all trees, receiving nodes, aggregated and
+plain types, and all sequences of envelopes with arbitrary (claimed sender, peer) pairs. -/
+theorem c02_sound (i : Inst) (q : Queues) (ws : List Wire) :
+    ∀ d ∈ run i q ws, ∀ x ∈ d,
+      x.1 ∈ i.nodes ∧ x.1.id = x.2.sender ∧ ∀ p, x.2.peer = some p → x.1.server = p := by
+  induction ws generalizing q with
+  | nil => simp [run]
+  | cons w ws ih =>
+    intro d hd
+    simp only [run, List.mem_append] at hd
+    rcases hd with hd | hd
+    · cases hr : (receive i q w).2 with
+      | none => simp [hr] at hd
+      | some b =>
+        simp [hr] at hd; subst hd
+        unfold receive at hr
+        split at hr
+        · simp at hr
+        · rename_i s _
+          simp only at hr
+          split at hr
+          · simp at hr
+          · rename_i b' _
+            exact (c02_batch_sound i.nodes b' d hr).2
+    · exact ih _ d hd
+
+/-! ### non-vacuity -/
+private def nodes4 : List Node := [⟨10, 0⟩, ⟨11, 1⟩, ⟨12, 2⟩, ⟨13, 3⟩]
+private def inst : Inst := { nodes := nodes4, parent := some 10, nChildren := 2, agg := fun t => t == 1 }
+
+/-- honest children 12, 13 of node 11: one batch of two; a forged third message is refused -/
+example : run inst (fun _ => [])
+    [⟨1, some 12, some 2, 7⟩, ⟨1, some 13, some 3, 8⟩, ⟨3, some 12, some 3, 9⟩, ⟨3, none, some 2, 1⟩, ⟨3, some 99, some 2, 1⟩]
+    = [[(⟨12, 2⟩, ⟨1, 12, some 2, 7⟩), (⟨13, 3⟩, ⟨1, 13, some 3, 8⟩)]] := by decide
+
+/-- one impersonating element poisons the whole aggregated batch: nothing is delivered -/
+example : run inst (fun _ => []) [⟨1, some 12, some 2, 7⟩, ⟨1, some 13, some 2, 8⟩] = [] := by decide
 
 end C02
